@@ -75,6 +75,8 @@ OPS = [
     ("reg", "e1.d1", None, 60, "L2", None),
     # the endpoint has moved: its update (without any parameter / with one) comes from another address, and the base follows
     ("updfrom", 0, "", 3), ("updfrom", 0, "lt=60", 3),
+    # an update that spells out, as its explicit base, exactly what has been derived from the source address so far
+    ("upd", 0, "base=coap://[2001:db8::1]:40000"),
 ]
 CORE4 = [("reg", "e1", None, 120, "L2", None), ("reg", "e1", "d1", None, "L1", None), ("reg", "e2", None, 60, "L2", None), ("reg", "e1", None, 0, "L1", None),
          ("badreg", "lt=abc"), ("badreg", "body"), ("upd", 0, "lt=120"), ("upd", 0, "x=2"), ("upd", 0, "ep=e9"), ("upd", 0, "body"), ("upd", 1, "lt=60"),
